@@ -182,10 +182,12 @@ def check (c):
     viol = []
     mon  = {}
     worst = 0.0
+    margins = {}
     def judge (name, measured, allowed, msg):
         nonlocal worst
         mon [name] = mon.get (name, 0) + 1
         worst = max (worst, measured / allowed)
+        margins [name.split (':') [0]] = max (margins.get (name.split (':') [0], 0.0), measured / allowed)
         if not (measured <= allowed):
             viol.append (dict (monitor = name, key = name, msg = msg, measured = measured, allowed = allowed))
     sc   = spec ['motion']['sc'] or 1.0
@@ -250,6 +252,6 @@ def check (c):
     sig = gen.signature (base, mA, extra = ['+'.join (kinds)])
     bent = len (mA.geo) > 1 or any (g ['k'] != 'w' for g in spec ['geo'])
     nontrivial = (('rotate' in kinds) or ('scale' in kinds)) and (bent or mA.media is not None)
-    return dict ( status = 'violation' if viol else 'held', sig = sig, nontrivial = bool (nontrivial), margin = worst
+    return dict ( status = 'violation' if viol else 'held', sig = sig, nontrivial = bool (nontrivial), margin = worst, margins = margins
                 , monitors = mon, violations = viol [:6], info = dict (cond = cond, motion = spec ['motion']))
 # end def check
